@@ -235,6 +235,9 @@ pub enum RespTy {
     EchoC,
     /// response is a generic parameter / associated type
     Param(usize),
+    /// plain leaf responses: `Binary` (already "encoded"-looking bytes) and `String`
+    Bin,
+    Text,
 }
 
 #[derive(Clone, Copy, Debug, PartialEq, Eq, Hash, Serialize, Deserialize)]
